@@ -150,6 +150,75 @@ def cases_file(s, cases, asts, runs, with_model=True):
     return "".join(L)
 
 
+# The leaf rules at variable positions, as ABSOLUTE expectations (the models take the scalars' rules from the source, so a
+# change of a rule moves model and engine together; the laws themselves are C10's theorems): value -> refused / delivered
+LEAF_SDL = """
+input Box { n: Int inner: Box ns: [Int] f: Float }
+type Query { i(a: Int): Int f(a: Float): Int s(a: String): Int b(a: Boolean): Int d(a: ID): Int li(a: [Int!]): Int
+             ll(a: [[Int!]]): Int bx(a: Box): Int }
+"""
+REFUSED = object()
+LEAF_CASES = [
+    ("i", "Int", 1e10, REFUSED), ("i", "Int", 2147483648.0, REFUSED), ("i", "Int", -2147483649.0, REFUSED),
+    ("i", "Int", 2 ** 31, REFUSED), ("i", "Int", -(2 ** 31) - 1, REFUSED), ("i", "Int", True, REFUSED), ("i", "Int", "1", REFUSED),
+    ("i", "Int", 1.5, REFUSED), ("i", "Int", float("inf"), REFUSED), ("i", "Int", 5.0, 5), ("i", "Int", 2147483647.0, 2147483647),
+    ("i", "Int", -2147483648.0, -2147483648), ("i", "Int", 0, 0), ("i", "Int", -0.0, 0),
+    ("f", "Float", 1, 1.0), ("f", "Float", True, REFUSED), ("f", "Float", "1.5", REFUSED), ("f", "Float", 1e308, 1e308),
+    ("f", "Float", 10 ** 400, REFUSED),
+    ("s", "String", 1, REFUSED), ("s", "String", True, REFUSED), ("s", "String", "x", "x"), ("s", "String", 1.5, REFUSED),
+    ("b", "Boolean", 0, REFUSED), ("b", "Boolean", 1, REFUSED), ("b", "Boolean", "true", REFUSED), ("b", "Boolean", 1.0, REFUSED),
+    ("b", "Boolean", True, True), ("b", "Boolean", False, False),
+    ("d", "ID", 1, "1"), ("d", "ID", "a", "a"), ("d", "ID", 1.5, REFUSED), ("d", "ID", True, REFUSED),
+    ("li", "[Int!]", [1, 3e9], REFUSED), ("li", "[Int!]", 4.0e9, REFUSED), ("li", "[Int!]", [1, 2.0], [1, 2]), ("li", "[Int!]", 7.0, [7]),
+    ("li", "[Int!]", [True], REFUSED), ("ll", "[[Int!]]", [[1, 3e9]], REFUSED), ("ll", "[[Int!]]", 4, [[4]]),
+    ("bx", "Box", {"n": 5e9}, REFUSED), ("bx", "Box", {"inner": {"inner": {"ns": [1, 2, -2.5e9]}}}, REFUSED),
+    ("bx", "Box", {"n": 5.0, "f": 2}, {"n": 5, "f": 2.0}), ("bx", "Box", {"n": True}, REFUSED), ("bx", "Box", {"f": "1"}, REFUSED),
+]
+
+
+def _typed(v):
+    """value with the Python type of every leaf (1 and 1.0 and True are different answers)"""
+    if isinstance(v, list):
+        return [_typed(x) for x in v]
+    if isinstance(v, dict):
+        return {k: _typed(x) for k, x in v.items()}
+    return (type(v).__name__, v)
+
+
+async def leaf_rules_scenario():
+    from tartiflette import create_engine, Resolver
+    name = fresh_schema_name("c04leaf")
+    got = {}
+    for fn in ("i", "f", "s", "b", "d", "li", "ll", "bx"):
+        def mk(fn):
+            @Resolver("Query." + fn, schema_name=name)
+            async def r(parent, args, ctx, info):
+                got[fn] = args
+                return 1
+        mk(fn)
+    engine = await create_engine(LEAF_SDL, schema_name=name)
+    problems = []
+    # every case twice, in two orders: first the list order, then reversed (an earlier equal-but-other-typed value must not matter)
+    for cases in (LEAF_CASES, list(reversed(LEAF_CASES))):
+        for fn, t, value, want in cases:
+            got.clear()
+            q = "query ($v: %s) { %s(a: $v) }" % (t, fn)
+            try:
+                resp = await engine.execute(q, variables={"v": value})
+            except Exception as e:  # pylint: disable=broad-except
+                resp = {"raised": repr(e)}
+            if want is REFUSED:
+                ok = resp.get("data") is None and resp.get("errors") and not got
+                exp = "refused before execution (errors, data null, no resolver called)"
+            else:
+                ok = not resp.get("errors") and fn in got and _typed(got[fn].get("a")) == _typed(want)
+                exp = "resolver receives %r" % (_typed(want),)
+            if not ok:
+                problems.append({"sdl": LEAF_SDL, "query": q, "variables": {"v": repr(value)}, "expected": exp,
+                                 "resolver_received": {k: repr(_typed(v.get("a"))) for k, v in got.items()}, "response": repr(resp)[:600]})
+    return problems, 2 * len(LEAF_CASES)
+
+
 def main(tier_, replay=None):
     from . import engine_env
     rep = common.Report("C04")
@@ -184,13 +253,17 @@ def main(tier_, replay=None):
             impl_mm.append((s, cases[i], asts[i], runs[i]))
         for i in common.parse_Z_list(so, "spec_mismatch") or []:
             spec_mm.append((s, cases[i], asts[i], runs[i]))
+    leaf_problems, leaf_n = asyncio.run(leaf_rules_scenario())
+    total += leaf_n
+    for pr in leaf_problems[:4]:
+        rep.violation(dict(pr, property="C04", kind="a leaf value of a variable is not coerced by the scalar's input rule"))
     known = common.known_findings("C04")
     for s, case, ast, run in spec_mm[:5]:
         rep.violation({"property": "C04", "kind": "engine differs from CoerceVariableValues (spec model)",
                        "sdl": gen.schema_sdl(s), "query": case[0], "variables": case[1],
                        "observed": observation(case, ast, run)[1],
                        "response": run["response"]})
-    if not spec_mm:
+    if not spec_mm and not leaf_problems:
         if not proofs_ok:
             rep.violation({"property": "C04", "what": "proof obligation no longer checks",
                            "file": b.get("failed_file"), "theorem": b.get("failed_lemma"), "gate": gate,
